@@ -109,7 +109,7 @@ def _gen_atomic(o, nparts, has_perf, cfg):
     elif k == "len_getitem":
         op.update(target="perf" if has_perf and o.random() < 0.4 else "score", slices=o.choice((None, None, [0, 1], [1, None], [None, None])))
     elif k == "perf_midi":
-        op.update(target=o.choice(("perf", "ppart")), route=o.choice(("filelike", "path")))
+        op.update(target=o.choice(("perf", "ppart", "pplist")), route=o.choice(("filelike", "path")))
     elif k == "perf_array":
         op.update(target=o.choice(("perf", "ppart")))
     elif k in ("na_slice", "na_pianoroll", "na_estimate", "na_to_score"):
@@ -258,6 +258,22 @@ def make_perf(asc, seed):
     return perf, align
 
 
+def make_free_parts(seed):
+    """performed parts that are NOT wrapped in a Performance: two recordings, both on track 0 (nothing has made their
+    track numbers unique), as a caller would pass them in a list"""
+    import random
+
+    import partitura.performance as P
+
+    rng = random.Random(seed ^ 0x5A5A)
+    out = []
+    for k in range(2):
+        notes = [{"id": "f%dn%d" % (k, i), "midi_pitch": 40 + 12 * k + i, "note_on": 0.25 * i + 0.1 * k, "note_off": 0.25 * i + 0.2 + 0.1 * k, "velocity": rng.randrange(30, 100), "track": 0, "channel": k} for i in range(3)]
+        controls = [{"type": "sustain_pedal", "number": 64, "time": 0.3, "value": 100, "track": 0, "channel": k}] if rng.random() < 0.5 else []
+        out.append(P.PerformedPart(notes, id="F%d" % k, controls=controls))
+    return out
+
+
 def _container_consistent(res, r, k):
     """a Score returned by the library is a container like any other: len, indexing and iteration agree"""
     import partitura.score as S
@@ -302,8 +318,10 @@ class World(object):
                 p.add(S.Words("ped. simile", staff=top + 1), p.first_point.t if p.first_point else 0)
         self.perf = None
         self.align = None
+        self.free_parts = None
         if case.get("perf_seed") is not None:
             self.perf, self.align = make_perf(self.asc, case["perf_seed"])
+            self.free_parts = make_free_parts(case["perf_seed"])
         self.res = res
         self.fs = simfs if simfs is not None else SimFS(chunk=case["knobs"].get("chunk", 0))
         self.path_counter = 0
@@ -314,7 +332,7 @@ class World(object):
     def roots(self):
         r = [self.score, self.arrays]
         if self.perf is not None:
-            r += [self.perf, self.align]
+            r += [self.perf, self.align, self.free_parts]
         return r
 
     def snap(self):
@@ -327,6 +345,8 @@ class World(object):
             return self.perf
         if name == "ppart":
             return self.perf.performedparts[0]
+        if name == "pplist":
+            return self.free_parts
         return self.score.parts[int(name[4:]) % len(self.score.parts)]
 
 
